@@ -54,7 +54,7 @@ func ReadFrom(r io.Reader) (*Index, error) {
 	if int32(idx.depth) < 0 {
 		return nil, errors.New("csi: invalid index depth value")
 	}
-	if idx.minShift+idx.depth*nextBinShift > 62 {
+	if idx.minShift > 62 || idx.depth > 62/nextBinShift || idx.minShift+idx.depth*nextBinShift > 62 {
 		// Positions and bin numbers would not fit their integer types.
 		return nil, errors.New("csi: minimum shift and depth too large")
 	}
